@@ -604,6 +604,153 @@ template <typename T1> static void cmp_from() {
   cmp_pair<T1, float>(); cmp_pair<T1, double>(); cmp_pair<T1, mpz_class>(); cmp_pair<T1, mpq_class>();
 }
 
+
+// ---------------------------------------------------------------------------------------------------------------
+// 4. textual input: Checked::input / input_mpq / parse_number (checked.cc) through assign_r(To&, const char*, dir).
+//    Strings are GENERATED from a structural description (sign, base prefix, integer and fractional digits, exponent
+//    marker/sign/digits, optional /DENOMINATOR of the same shape); the exact value is computed from the description,
+//    never by parsing the string again.
+// ---------------------------------------------------------------------------------------------------------------
+struct Part {
+  int sign;            // 0 none, 1 '+', 2 '-'
+  int base; int style; // style 0: plain decimal, 1: 0x / 0X, 2: <base>^^
+  std::string ints, fracs; bool dot;
+  int exp_style;       // 0 none, 1 'e', 2 'E', 3 'p'/'P' (binary exponent of a hexadecimal mantissa), 4 "*^"
+  int exp_sign;        // 0 none, 1 '+', 2 '-'
+  unsigned exp;
+};
+static char digit_char(int d) { if (d < 10) return (char)('0' + d); char c = (char)('a' + d - 10); return (rnd() & 1) ? c : (char)(c - 32); }
+static int digit_val(char c) { if (c >= '0' && c <= '9') return c - '0'; if (c >= 'a' && c <= 'z') return c - 'a' + 10; return c - 'A' + 10; }
+static std::string digits(int base, int n, int zeros_front, int zeros_back) {
+  std::string r(zeros_front, '0');
+  for (int i = 0; i < n; ++i) { int d = (int)(rnd() % (unsigned)base); if ((i == 0 || i == n - 1) && d == 0) d = 1 % base == 0 ? 0 : 1; r += digit_char(d); }
+  r += std::string(zeros_back, '0');
+  return r;
+}
+static std::string part_text(const Part& p) {
+  std::ostringstream o;
+  if (p.sign == 1) o << '+'; else if (p.sign == 2) o << '-';
+  if (p.style == 1) o << ((rnd() & 1) ? "0x" : "0X"); else if (p.style == 2) o << p.base << "^^";
+  o << p.ints; if (p.dot) o << '.' << p.fracs;
+  switch (p.exp_style) { case 1: o << 'e'; break; case 2: o << 'E'; break; case 3: o << ((rnd() & 1) ? 'p' : 'P'); break; case 4: o << "*^"; break; default: break; }
+  if (p.exp_style) { if (p.exp_sign == 1) o << '+'; else if (p.exp_sign == 2) o << '-'; o << p.exp; }
+  return o.str();
+}
+static mpq_class part_value(const Part& p) {
+  mpz_class m = 0; std::string all = p.ints + (p.dot ? p.fracs : std::string());
+  for (size_t i = 0; i < all.size(); ++i) { m *= p.base; m += digit_val(all[i]); }
+  mpq_class v(m);
+  if (p.dot && !p.fracs.empty()) { mpz_class d; mpz_ui_pow_ui(d.get_mpz_t(), (unsigned long)p.base, p.fracs.size()); v /= mpq_class(d); }
+  if (p.exp_style) { mpz_class e; mpz_ui_pow_ui(e.get_mpz_t(), p.exp_style == 3 ? 2UL : (unsigned long)p.base, p.exp); if (p.exp_sign == 2) v /= mpq_class(e); else v *= mpq_class(e); }
+  if (p.sign == 2) v = -v;
+  return v;
+}
+// shape: number of integer digits, fractional digits (-1: no '.'), trailing zeros, exponent style/sign/value
+static Part make_part(int base, int style, int sign, int ni, int nf, int tz_int, int tz_frac, int exp_style, int exp_sign, unsigned exp) {
+  Part p; p.sign = sign; p.base = base; p.style = style; p.dot = nf >= 0;
+  p.ints = ni > 0 ? digits(base, ni, (int)(rnd() % 2), tz_int) : std::string();
+  p.fracs = nf > 0 ? digits(base, nf, (int)(rnd() % 2), tz_frac) : std::string();
+  if (p.ints.empty() && (!p.dot || p.fracs.empty())) p.ints = "1";
+  if (exp_style == 1 || exp_style == 2) { if (base > 14) exp_style = 4; }     // 'e' is a digit in bases above 14
+  if (exp_style == 3 && base != 16) exp_style = 4;
+  p.exp_style = exp_style; p.exp_sign = exp_sign; p.exp = exp;
+  return p;
+}
+
+struct InCase { std::string text; XV exact; bool invalid; };
+static std::vector<InCase> in_cases;
+static void add_case(const std::string& t, const XV& e, bool invalid = false) { InCase c; c.text = t; c.exact = e; c.invalid = invalid; in_cases.push_back(c); }
+
+static void build_input_cases() {
+  // special tokens and malformed strings
+  add_case("inf", XV(1)); add_case("+inf", XV(1)); add_case("-inf", XV(-1)); add_case("+INF", XV(1)); add_case("-Inf", XV(-1));
+  add_case("nan", XV(2)); add_case("NaN", XV(2)); add_case("  nan", XV(2)); add_case(" \t-inf", XV(-1));
+  const char* bad[] = { "", " ", ".", "-", "+", "abc", "1e", "1e+", "2.5E-", "0x1p+", "3*^-", "1*", "1*^", "1/", "1/.", "--1", "0x", "2^^", "1^^0", "37^^1", "3^^7", "1p3", "1/x", "e5", "in", "na" };
+  for (size_t i = 0; i < sizeof(bad) / sizeof(bad[0]); ++i) add_case(bad[i], XV(2), true);
+  add_case("1/0", XV(2)); add_case("0/0", XV(2)); add_case("5/0.000", XV(2)); add_case("0x10/0x0", XV(2));
+  add_case("0", XV(mpq_class(0))); add_case("-0", XV(mpq_class(0))); add_case("000", XV(mpq_class(0))); add_case("0.000e7", XV(mpq_class(0))); add_case("0/7", XV(mpq_class(0)));
+  add_case("1.", XV(mpq_class(1))); add_case(".5", XV(mpq_class(1, 2))); add_case("-.5e1", XV(mpq_class(-5))); add_case("+.25", XV(mpq_class(1, 4)));
+  add_case("0x.8", XV(mpq_class(1, 2))); add_case("0x1.8p1", XV(mpq_class(3))); add_case("16^^ff", XV(mpq_class(255))); add_case("2^^101.1", XV(mpq_class(11, 2)));
+  add_case("36^^z", XV(mpq_class(35))); add_case("3^^12e2", XV(mpq_class(45))); { mpz_class z; mpz_ui_pow_ui(z.get_mpz_t(), 10, 400); add_case("1e400", XV(mpq_class(z))); add_case("1e-400", XV(mpq_class(1, z))); add_case("-25e398/0.25", XV(mpq_class(-z))); }
+  add_case(" 12 ", XV(mpq_class(12))); add_case("12,5", XV(mpq_class(12))); add_case("3/ 4", XV(mpq_class(3, 4)));
+  // every production x exponent-merge sign case, over several bases
+  struct B { int base, style; } bases[] = { {10, 0}, {16, 1}, {2, 2}, {8, 2}, {10, 2}, {14, 2}, {16, 2}, {36, 2}, {3, 2} };
+  const int nb = (int)(sizeof(bases) / sizeof(bases[0]));
+  struct Sh { int ni, nf, tzi, tzf, es, esg; unsigned e; } shapes[] = {
+    {1, -1, 0, 0, 0, 0, 0}, {3, -1, 2, 0, 0, 0, 0}, {2, 0, 0, 0, 0, 0, 0}, {1, 2, 0, 0, 0, 0, 0}, {0, 2, 0, 0, 0, 0, 0}, {2, 3, 0, 2, 0, 0, 0},
+    {1, -1, 0, 0, 1, 0, 3}, {1, -1, 0, 0, 2, 1, 2}, {2, -1, 1, 0, 1, 2, 2}, {1, 2, 0, 0, 1, 0, 5}, {1, 2, 0, 1, 2, 2, 1}, {1, 1, 0, 0, 4, 0, 2}, {2, -1, 0, 0, 4, 2, 3},
+    {1, 1, 0, 0, 3, 0, 3}, {2, -1, 1, 0, 3, 2, 5}, {1, -1, 0, 0, 1, 0, 0}, {6, 4, 0, 0, 1, 2, 7} };
+  const int ns = (int)(sizeof(shapes) / sizeof(shapes[0]));
+  for (int b = 0; b < nb; ++b) for (int s = 0; s < ns; ++s) {
+    const Sh& h = shapes[s];
+    Part n = make_part(bases[b].base, bases[b].style, (int)(rnd() % 3), h.ni, h.nf, h.tzi, h.tzf, h.es, h.esg, h.e);
+    add_case(part_text(n), XV(part_value(n)));
+    // as numerator over every denominator shape of the same base (all exponent-merge sign cases) and of another base
+    int reps = thorough ? ns : 6;
+    for (int k = 0; k < reps; ++k) {
+      int t = thorough ? k : (int)((unsigned)(s * 5 + k * 3 + b) % (unsigned)ns);
+      const Sh& g = shapes[t];
+      bool other = (k % 5 == 4);
+      const B& db = other ? bases[(b + 1 + k) % nb] : bases[b];
+      Part d = make_part(db.base, db.style, (int)(rnd() % 3), g.ni, g.nf, g.tzi, g.tzf, g.es, g.esg, g.e);
+      Part n2 = make_part(bases[b].base, bases[b].style, (int)(rnd() % 3), h.ni, h.nf, h.tzi, h.tzf, h.es, h.esg, h.e);
+      mpq_class dv = part_value(d);
+      std::string txt = part_text(n2) + "/" + part_text(d);
+      if (dv == 0) add_case(txt, XV(2)); else add_case(txt, XV(mpq_class(part_value(n2) / dv)));
+    }
+  }
+  // seeded random parts, and values aimed at the boundaries of the destination types written in several ways
+  int nr = thorough ? 1500 : 250;
+  for (int i = 0; i < nr; ++i) {
+    const B& bb = bases[rnd() % nb];
+    Part n = make_part(bb.base, bb.style, (int)(rnd() % 3), (int)(rnd() % 8), (int)(rnd() % 6) - 1, (int)(rnd() % 3), (int)(rnd() % 3), (int)(rnd() % 5), (int)(rnd() % 3), (unsigned)(rnd() % 12));
+    if (rnd() % 3 == 0) {
+      const B& db = (rnd() % 4 == 0) ? bases[rnd() % nb] : bb;
+      Part d = make_part(db.base, db.style, (int)(rnd() % 3), (int)(rnd() % 5), (int)(rnd() % 5) - 1, (int)(rnd() % 3), (int)(rnd() % 3), (int)(rnd() % 5), (int)(rnd() % 3), (unsigned)(rnd() % 12));
+      mpq_class dv = part_value(d);
+      std::string txt = part_text(n) + "/" + part_text(d);
+      if (dv == 0) add_case(txt, XV(2)); else add_case(txt, XV(mpq_class(part_value(n) / dv)));
+    }
+    else add_case(part_text(n), XV(part_value(n)));
+  }
+  for (size_t i = 0; i < universal.size(); i += (thorough ? 1 : 3)) {
+    const mpq_class& q = universal[i];
+    add_case(q.get_str(), XV(q));                                      // "n/d" in decimal
+    if (q.get_den() == 1) { add_case(q.get_num().get_str() + "00e-2", XV(q)); add_case(q.get_num().get_str() + ".0", XV(q)); }
+    std::string hn = q.get_num().get_str(16), hd = q.get_den().get_str(16);
+    std::string h = (hn[0] == '-' ? std::string("-0x") + hn.substr(1) : std::string("0x") + hn);
+    add_case(q.get_den() == 1 ? h : h + "/0x" + hd, XV(q));
+  }
+}
+
+template <typename To> static void input_to() {
+  ToInfo ti = to_info<To>();
+  for (size_t i = 0; i < in_cases.size(); ++i) {
+    const InCase& c = in_cases[i];
+    for (int k = 0; k < 5; ++k) {
+      unsigned dir = DIRS[k];
+      To to = sentinel<To>();
+      Result r = assign_r(to, c.text.c_str(), static_cast<Rounding_Dir>(dir));
+      counts["input"]++;
+      XV s = describe(to);
+      const char* why = 0;
+      if (c.invalid) { if ((unsigned)r != (unsigned)V_CVT_STR_UNK) why = "malformed-string-not-reported-as-V_CVT_STR_UNK"; }
+      else {
+        why = oracle(ti, (unsigned)r, dir, c.exact, s);
+        if (!why && c.exact.kind == 2 && ((unsigned)r & ~128u) == (unsigned)V_CVT_STR_UNK) why = "valid-string-reported-as-V_CVT_STR_UNK";
+      }
+      if (why) {
+        std::ostringstream g; g << show(s) << " " << (unsigned)r;
+        const char* cls = "other";
+        size_t n = c.text.size();
+        if (c.invalid && n >= 2 && (c.text[n - 1] == '+' || c.text[n - 1] == '-') && std::string("eEpP^").find(c.text[n - 2]) != std::string::npos)
+          cls = "exponent-sign-at-end-of-input";
+        fail("input", "assign_r(string)", NT<To>::name(), "text", cls, dir, std::string("\"") + c.text + "\" = " + show(c.exact), g.str(), why);
+      }
+    }
+  }
+}
+
 int main(int argc, char** argv) {
   std::ios::sync_with_stdio(false);
   unsigned long long seed = argc > 1 ? strtoull(argv[1], 0, 10) : 1;
@@ -627,6 +774,13 @@ int main(int argc, char** argv) {
     cmp_from<int8_t>(); cmp_from<int16_t>(); cmp_from<int32_t>(); cmp_from<int64_t>();
     cmp_from<uint8_t>(); cmp_from<uint16_t>(); cmp_from<uint32_t>(); cmp_from<uint64_t>();
     cmp_from<float>(); cmp_from<double>(); cmp_from<mpz_class>(); cmp_from<mpq_class>();
+  }
+  if (only == "all" || only == "input") {
+    build_input_cases();
+    std::cout << "P input-strings " << in_cases.size() << "\n";
+    input_to<mpq_class>(); input_to<mpz_class>(); input_to<float>(); input_to<double>();
+    input_to<int8_t>(); input_to<int16_t>(); input_to<int32_t>(); input_to<int64_t>();
+    input_to<uint8_t>(); input_to<uint16_t>(); input_to<uint32_t>(); input_to<uint64_t>();
   }
   for (std::map<std::string, long long>::const_iterator i = counts.begin(); i != counts.end(); ++i)
     std::cout << "N " << i->first << " " << i->second << "\n";
